@@ -171,6 +171,38 @@ def evaluate(c):
                         viol.append(('LOAD-LISTING-' + form, 'load on pulse %d (%s form): listing %s (count %s)' % (p, form, imp, n)))
             canon.append('%s|p%d' % (c['name'], p))
             nontriv.append(bool(special or tags != list(range(1, len(tags) + 1))))
+    # --- two sources named in the tag-relative form with the SAME k on two objects (a phased array fed at the same pulse of
+    # each element), in both orders, against the absolute form: same source pulses, same feed impedances
+    two = [b for b in blocks if b['rows']][:2]
+    if len(two) == 2:
+        k2 = 1
+        pa, pb = two[0]['rows'][k2 - 1][6], two[1]['rows'][k2 - 1][6]
+        volts = ['--excitation-voltage=1', '--excitation-voltage=0.5-2j']
+        forms = {'abs': ['--excitation-pulse=%d' % pa, '--excitation-pulse=%d' % pb],
+                 'rel': ['--excitation-pulse=%d,%d' % (k2, two[0]['tag']), '--excitation-pulse=%d,%d' % (k2, two[1]['tag'])]}
+        res = {}
+        for fn, ex in forms.items():
+            for order in (0, 1):
+                a_ = [ex[0], volts[0], ex[1], volts[1]] if order == 0 else [ex[1], volts[1], ex[0], volts[0]]
+                o_, d_ = run(base + a_)
+                runs += 1
+                if o_ is None:
+                    # two sources may exchange power so that the net input power is not positive: a legitimate diagnostic,
+                    # but then for every way of naming the same two sources
+                    res[(fn, order)] = 'rejected' if 'power is not positive' in d_ else 'rejected: ' + d_[:60]
+                    continue
+                sd = report.parse_source_data(o_)
+                res[(fn, order)] = sorted((x['pulse'], x['impedance']) for x in sd)
+        ref = res.get(('abs', 0))
+        for key, val in res.items():
+            if isinstance(ref, str) or isinstance(val, str):
+                if val != ref or val != 'rejected':
+                    viol.append(('SRC2-FORMS', 'two sources on pulses %d and %d given in %s form, order %d: %s, absolute form: %s' % (pa, pb, key[0], key[1], val, ref)))
+                continue
+            if ref is None or [x[0] for x in val] != sorted([pa, pb]) or len(val) != len(ref) or any(abs(a[1] - b[1]) > 1e-6 * abs(b[1]) for a, b in zip(val, ref)):
+                viol.append(('SRC2-FORMS', 'two sources on pulses %d and %d given in %s form, order %d: source data %s, absolute form gives %s' % (pa, pb, key[0], key[1], val, ref)))
+        canon.append('%s|two-sources' % c['name'])
+        nontriv.append(True)
     # --- the writer's tag-relative form: load 1 on the odd, load 2 on the even pulse numbers (absolute form); the option
     # list written with per-object attachments must name every pulse as (row k of its block, block tag)
     rowsall = [(b['tag'], k + 1, r[6]) for b in blocks for k, r in enumerate(b['rows'])]
